@@ -115,6 +115,13 @@ func monC16(c *child.Ctx, replay json.RawMessage) {
 		if k.Chunk == 100 && k.Size > 20000 {
 			k.Chunk = 1000
 		}
+		if i%50 == 17 {
+			// a filestore that takes more than a second over the last write: "recording
+			// never ... truncates the record" has no time limit
+			k.Hook = "@apps/rtcmlogger/main:writeRTCMLog:write=1300000"
+			k.Size = r.Range(1, 8000)
+			k.Stdin = "pipe-close-at-once"
+		}
 		cj := c.BeginV(k)
 		execC16(c, k, cj)
 		c.Eval(ref.Hash64(cj), k.Size > 0 && (k.Hook != "" || k.Stdin != "file"))
